@@ -79,6 +79,7 @@ SeedOK(sd) ==
     /\ (sd.n < 2) => sd.e1 = "none"
     /\ (Universe \in {"policies", "alts"}) => (sd.n = 2 /\ sd.e2 = "none")
     /\ (Universe = "alts") => sd.ro = NoOwner
+    /\ (Universe = "guards") => (sd.n = 1 /\ sd.ro = NoOwner /\ sd.e1 = "none")
     /\ (Universe = "atten") => (sd.n < MaxBlocks /\ sd.e2 = "none" /\ sd.ro # sd.n)
 
 PickChecks(sd) ==
@@ -138,6 +139,28 @@ PickAtten(sd) ==
         /\ extb' = [ext |-> ee, scope |-> es, facts |-> {F("bE")}, rules |-> er, checks |-> ec]
         /\ Untrusting(prog', ee)
 
+\* C11: bindings on which a guard fails with an error coexist with bindings that match
+XF(c) == Atom("x", <<c>>)
+GuardMenu == {Guard("nz", X, "-"), Guard("lt", X, "i:3"), Guard("neq", X, "i:0")}
+FactSets == (SUBSET {XF("i:0"), XF("i:1"), XF("i:5")}) \ {{}}
+
+PickGuards(sd) ==
+    \E fs \in FactSets, co \in {0, AZ}, k \in Kinds, g \in GuardMenu, two \in BOOLEAN,
+       pg \in {0, 1, 2}, rl \in BOOLEAN :
+        LET alt1 == QG(<<XF(X)>>, g, {})
+            alts == IF two THEN <<alt1, QG(<<XF(X)>>, Guard("nz", X, "-"), {})>> ELSE <<alt1>>
+            chk  == Chk(k, alts)
+            pol  == CASE pg = 0 -> AllowTrue
+                      [] pg = 1 -> Pol("allow", <<QG(<<XF(X)>>, Guard("nz", X, "-"), {})>>)
+                      [] pg = 2 -> Pol("deny", <<QG(<<XF(X)>>, Guard("lt", X, "i:3"), {})>>)
+            rules == IF rl THEN <<[head |-> D(X), body |-> <<XF(X)>>, guards |-> <<Guard("nz", X, "-")>>, scope |-> {}]>> ELSE <<>>
+        IN /\ prog' = [blocks |-> <<[ext |-> "none", scope |-> {}, facts |-> fs, rules |-> rules,
+                                      checks |-> IF co = 0 THEN <<chk>> ELSE <<>>]>>,
+                        authz |-> [scope |-> {}, facts |-> {}, rules |-> <<>>,
+                                   checks |-> IF co = AZ THEN <<chk>> ELSE <<>>,
+                                   policies |-> <<pol, Pol("deny", <<Q(<<>>, {})>>)>>]]
+           /\ extb' = NoBlock
+
 NoProg == [blocks |-> <<MkBlock(0, "none", {}, <<>>, <<>>)>>, authz |-> MkAuthz({}, <<>>, <<>>, <<AllowTrue>>)]
 
 Init ==
@@ -152,6 +175,7 @@ Next ==
          [] Universe = "policies" -> PickPolicies(seed)
          [] Universe = "alts"     -> PickAlts(seed)
          [] Universe = "atten"    -> PickAtten(seed)
+         [] Universe = "guards"   -> PickGuards(seed)
 
 Spec == Init /\ [][Next]_vars
 
@@ -188,8 +212,16 @@ ResultOf(P) ==
      q_all     |-> QueryResult(P, W, R(Atom("r", <<X>>), <<F(X)>>, {}), QueryAllTrust(P, {})),
      q_d_all   |-> QueryResult(P, W, R(Atom("r", <<X>>), <<D(X)>>, {}), QueryAllTrust(P, {}))]
 
+\* C11 (the property as stated): refuted by TLC for the implemented first-binding-decides rule
+DeterministicAll == (Ready /\ Universe = "guards") => Deterministic(prog)
+
+ExportOutcomes ==
+    (ExportOn /\ Ready /\ Universe = "guards") =>
+        PrintT(<<"OUTC", ToJson([prog |-> prog, outcomes |-> AuthOutcomes(prog),
+                                 res |-> ResultOf(prog)])>>)
+
 Export ==
-    (ExportOn /\ Ready /\ (SampleN = 1 \/ RandomElement(1..SampleN) = 1)) =>
+    (ExportOn /\ Ready /\ Universe # "guards" /\ (SampleN = 1 \/ RandomElement(1..SampleN) = 1)) =>
         PrintT(<<"PROG", ToJson([prog |-> prog, res |-> ResultOf(prog),
                                  ext |-> extb,
                                  res_ext |-> IF Universe = "atten" THEN ResultOf(PE) ELSE ResultOf(prog)])>>)
@@ -203,4 +235,5 @@ Scopes3 == {{}, {"previous"}, {"E1"}}
 Scopes4k == {{}, {"previous"}, {"E1"}, {"E2"}}
 VarsX == {"$x", "$y"}
 NoInts == [i \in {} |-> 0]
+SmallInts == [i \in {"i:0", "i:1", "i:3", "i:5"} |-> CASE i = "i:0" -> 0 [] i = "i:1" -> 1 [] i = "i:3" -> 3 [] i = "i:5" -> 5]
 =============================================================================
